@@ -155,9 +155,9 @@ def dense_structure(rec, system, feats, expect_times=None, K=64, clause_prefix="
     hi = [max(float(p.t0), float(p.t1)) for p in pieces]
     ttol = 0.0
     if substeps:   # Richardson wrappers: pieces come from sub-steps whose end points are re-accumulated (rounding)
-        ttol = 16 * 2.3e-16 * max(1.0, max(abs(x) for x in lo + hi))
+        ttol = 16 * 2.3e-16 * max([1.0] + [abs(x) for x in lo + hi])
     if time_eps:   # low-precision runs: implicit methods carry float64 increments, end points agree with recorded times to rounding only
-        ttol = max(ttol, 16 * time_eps * max(1.0, max(abs(x) for x in lo + hi)))
+        ttol = max(ttol, 16 * time_eps * max([1.0] + [abs(x) for x in lo + hi]))
         substeps = True
     for i in range(len(pieces) - 1):
         if abs(hi[i] - lo[i + 1]) > ttol:
